@@ -190,6 +190,9 @@ def write_md(results):
 
 
 TRIAGE = {
+    ('src/layouts/uk105.rs', 'KeyCode::Key4 -> KeyCode::Oem3'):
+        'equivalent with respect to the properties, same shape as the other two: the renamed arm is shadowed by the earlier Oem3 arm, KeyCode::Key4 falls '
+        'through to the US layout (4 and $ as before) and only loses its AltGr level (the euro sign).',
     ('src/layouts/de105.rs', 'KeyCode::E -> KeyCode::Escape'):
         'equivalent with respect to the properties, same shape as the fi_se105 survivor: the renamed arm is shadowed by the earlier Escape arm, KeyCode::E '
         'falls through to the US layout and only loses its AltGr level (the euro sign); base and Shift levels and Ctrl+E are what the US layout gives, '
